@@ -9,6 +9,7 @@ mod values;
 mod chan;
 mod script;
 mod routerrole;
+mod oneshot;
 #[cfg(feature = "async")]
 mod asyncrole;
 
@@ -41,8 +42,11 @@ fn main() {
         "values" => values::run(),
         "chan" => chan::run(args.get(2).map(|s| s.as_str()).unwrap_or("thread")),
         "agent" => chan::agent_main(&args[2]),
+        "lsfd" => chan::lsfd_main(),
         "script" => script::run(),
         "router" => routerrole::run(),
+        "oneshot" => oneshot::run(args.get(2).map(|s| s.as_str()).unwrap_or("thread")),
+        "oneshot-client" => oneshot::client_main(),
         #[cfg(feature = "async")]
         "async" => asyncrole::run(),
         _ => {
